@@ -22,6 +22,8 @@ CASE_TIMEOUT = 120.0
 
 SUBS_MENU = [
     [{}, {}],
+    [{'only': ['on_done']}, {}],
+    [{'only': ['on_queued', 'on_done']}, {'only': ['on_progress']}, {}],
     [{}, {'raise_on_done': True}, {}],
     [{'raise_on_done': True}, {}],
 ]
@@ -50,7 +52,7 @@ def with_subs(spec, rng, size_ok=True):
             s['_raise_on_done'] = True
     t['subs'] = subs
     if size_ok and t['kind'] in ('download', 'copy') and rng.random() < 0.4:
-        subs[0]['provide_size'] = t['size']
+        [s for s in subs if 'only' not in s or 'on_queued' in s['only']][0]['provide_size'] = t['size']
     plan = spec.setdefault('plan', {})
     for i, s in enumerate(subs):
         if s.pop('_raise_on_done', False):
@@ -180,7 +182,7 @@ def evaluate(obs):
             if heads:
                 viol.append(oracles.V(f'{x.label}: size was provided in on_queued but HeadObject was still issued',
                                       **oracles.base_mech(obs, x), sym='head-after-size'))
-        if len(dn) >= len(x.subs) and (any(e['kind'] == 'api.begin' for e in evs) or ns):
+        if len(dn) >= len([s for s in x.subs if hasattr(s, 'on_done')]) and (any(e['kind'] == 'api.begin' for e in evs) or ns):
             nontrivial = True
     summary = {'outcomes': e2e.default_outcomes(obs), 'window': obs.injector.window_hits if obs.injector else None,
                'callbacks': [(e['n'], e['kind'], e.get('sub')) for e in obs.events if e['kind'].startswith('cb.on_') and not e['kind'].endswith('.ret')][:30]}
